@@ -472,7 +472,7 @@ theorem Grow.appShutdown (e : EP) (h : Nat) : Grow e (appShutdown e h).1 := by
   split
   · exact Grow.refl e
   · split
-    · exact Grow.refl e
+    · exact Grow.modObj e _ _ (fun o => rfl)
     · exact (Grow.enqFrame _ _).after (Grow.modObj e _ _ (fun o => rfl))
 
 theorem Grow.appDropStream (e : EP) (h : Nat) : Grow e (appDropStream e h).1 := by
